@@ -11,6 +11,8 @@
 //	                               the Lean monitor), `FAIL …` lines for clauses decided here, and a `stress …` summary
 //	scopesig pub <rounds>          publication-order oracle (pub.go): waiters on Done() and pollers of IsDone() must find
 //	                               the error of a scope that was ended by an error; isolated descendants end killed
+//	scopesig late <rounds>         late-error oracle (late.go): a parent blocked in Wait()/Close() reports every error its
+//	                               children's close-protocol listeners and its tasks produced before they signed off
 //
 // Every call into goatcore runs under recover; a panic is a counted result.
 package main
@@ -1124,7 +1126,7 @@ func main() {
 	verifhook.Set(hook)
 	release.Store(make(chan struct{}))
 	if len(os.Args) < 2 {
-		fmt.Fprintln(os.Stderr, "usage: scopesig drive | gen <n> | facts | stress <rounds> <maxG> | pub <rounds>")
+		fmt.Fprintln(os.Stderr, "usage: scopesig drive | gen <n> | facts | stress <rounds> <maxG> | pub <rounds> | late <rounds>")
 		os.Exit(2)
 	}
 	switch os.Args[1] {
@@ -1138,6 +1140,12 @@ func main() {
 		gen(n)
 	case "facts":
 		facts()
+	case "late":
+		rounds := 1000
+		if len(os.Args) > 2 {
+			rounds, _ = strconv.Atoi(os.Args[2])
+		}
+		late(rounds)
 	case "pub":
 		rounds := 1000
 		if len(os.Args) > 2 {
